@@ -141,6 +141,27 @@ class Pipeline:
                         v['sig']['via'] = via
                         v['sig']['devs'] = list(devs)
                         return v
+            if devs in CORE_SETS:
+                # the SAME array object fitted again after an in-place edit of the object's settings: the requested boundary
+                # in force at the time of the fit is the one that has to be respected
+                for b2 in (7, 13):
+                    o2 = dict(o, boundary=b2)
+                    ok2, _, ref2 = precondition(sig, o2, min_peaks=self.min_peaks)
+                    if not ok2:
+                        continue
+                    arr = np.array(sig)
+                    bm2 = Bycycle(center_extrema=kw['center_extrema'], burst_method=kw['burst_method'],
+                                  burst_kwargs=kw.get('burst_kwargs'), thresholds=kw.get('threshold_kwargs'), return_samples=True)
+                    bm2.fit(arr, o['fs'], o['f_range'])
+                    bm2.find_extrema_kwargs['boundary'] = b2
+                    bm2.fit(arr, o['fs'], o['f_range'])
+                    nev += 2
+                    v = check_table(bm2.df_features, sig, o2, ref2, w)
+                    if v is not None:
+                        v['sig']['via'] = 'Bycycle.fit of the same array after find_extrema_kwargs[boundary] was edited in place'
+                        v['sig']['devs'] = list(devs)
+                        return v
+                    break
         sc = sample_cols(o['center_extrema'])
         gaps = set(np.diff(df[sc['centre']].to_numpy()).tolist()) if len(df) > 1 else set()
         return OK(outcome=table_hash(df, sorted(sc.values())), nontrivial=len(df) >= 3 and len(gaps) > 1, evals=nev,
